@@ -95,14 +95,14 @@ def run(ctx):
             continue
         for pos in ("only", "first", "last"):
             node, it = gen.vocab_doc(r, o, k, ai, pos)
-            gen.apply_order_rules(node, node.items, gopts)
+            gen.apply_gates(node, ctx.gated)
             res.seen("slots", f"{o}.{k}:{a.kind}")
             judge(ctx, eng, render.render([node], r.choice(surf), r).text, "vocab", allowed, slot=f"{o}.{k}:{a.kind}:{pos}")
         if a.kind == "enum":
             for m in a.info["members"]:
                 for case in ("upper", "lower"):
                     node, it = gen.vocab_doc(r, o, k, ai, "middle", member=m, enum_case=case)
-                    gen.apply_order_rules(node, node.items, gopts)
+                    gen.apply_gates(node, ctx.gated)
                     judge(ctx, eng, render.render([node]).text, "vocab-enum", allowed, slot=f"{o}.{k}:enum:{m}")
     # ---- corpus
     for path, text in corpus.texts(ctx):
